@@ -377,7 +377,11 @@ func (l *live) rounds(r *rand.Rand) uint32 {
 
 func (l *live) bids(r *rand.Rand) types.BlockID {
 	b := l.RealBID
-	switch r.Intn(8) {
+	switch r.Intn(10) {
+	case 8: // hash without a parts header: neither empty nor complete
+		b.PartsHeader = types.PartSetHeader{}
+	case 9: // parts header without a hash
+		b.Hash = cmn.Hash{}
 	case 0:
 		return types.BlockID{}
 	case 1:
